@@ -50,11 +50,13 @@ def gen(rng, tier):
         cases.append(["semc %d %d %d" % (p, c, k if tier == "quick" else k * 20)])
     for w in (1, 2, 5):
         cases.append(["cond %d %d" % (w, 20 if tier == "quick" else 400)])
+    for kinds in (["t", "u", "tt", "ut", "ttt", "utu"] if tier == "quick" else ["t", "u", "tt", "ut", "tu", "ttt", "utu", "tttt", "uutt", "tttttt"]):
+        cases.append(["condt %s %d 1500" % (kinds, 3 if tier == "quick" else 25)])
     return cases
 
 
 def nontrivial(case):
-    return any(l.split()[0] in ("pfrow", "thr", "semc", "cond") for l in case)
+    return any(l.split()[0] in ("pfrow", "thr", "semc", "cond", "condt") for l in case)
 
 
 def distribution(cases):
